@@ -70,6 +70,33 @@ impl Prop for C12 {
             ));
         }
         {
+            let pairs = pairs.clone();
+            f.push(Family::new(
+                "variable-amounts",
+                Mode::Full,
+                "the amount held in a variable that is bound to a plain number: 'n = X / n A to B' for every same-kind pair (X in 1, 2,5), and 'a = 3 / b = 12 / a A + b B', 'a A / b B' for every same-kind pair: the quantity is the variable's value in that unit",
+                move |ch| {
+                    let (i, j) = *ch.pick(&pairs);
+                    let (ua, ub) = (&UNITS[i], &UNITS[j]);
+                    match ch.choose(3) {
+                        0 => {
+                            let (xt, x) = *ch.pick(&[("1", 1.0), ("2,5", 2.5)]);
+                            let want = x * ua.factor / ub.factor;
+                            Some(Case::Line(LineCase::new(format!("n = {}\nn {} to {}", xt, ua.short, ub.short), Expect::Value(unit_val(want, ub), 1e-9), "var-amount")))
+                        }
+                        1 => {
+                            let want = 3.0 + 12.0 * ub.factor / ua.factor;
+                            Some(Case::Line(LineCase::new(format!("a = 3\nb = 12\na {} + b {}", ua.short, ub.short), Expect::Value(unit_val(want, ua), 1e-9), "var-amount-sum")))
+                        }
+                        _ => {
+                            let want = guarded_div(3.0, 12.0 * ub.factor / ua.factor);
+                            Some(Case::Line(LineCase::new(format!("a = 3\nb = 12\na {} / b {}", ua.short, ub.short), Expect::Value(Val::Number(want, Base::Dec), 1e-9), "var-amount-ratio")))
+                        }
+                    }
+                },
+            ));
+        }
+        {
             // every configured spelling, each unit to a neighbour and back
             let mut cases: Vec<(usize, String, usize, String)> = Vec::new();
             for (i, u) in UNITS.iter().enumerate() {
